@@ -25,6 +25,8 @@ OBLIGATIONS = [
     (P + "ascii_sync_encOk", "EncOk for every validator synchronised at ASCII bytes (AsciiSync; UTF-8 validators are of this kind) whose pre-filter yields valid text"),
     (P + "uri_validator_scheme_whitelist", "model of uri_parser/uri_validator_functor (scheme expression an arbitrary predicate): an accepted text with a scheme has "
                                            "an allowed scheme and the validator is not the relative one; absolute_uri accepts only texts with a scheme"),
+    (P + "uri_accepted_bytes_safe", "every byte of a text accepted by the URI validator model is printable ASCII other than \" < > \\ [ ] ^ ` { | } (no space/control/non-ASCII), every & starts &amp; or &apos;"),
+    (P + "uri_browser_scheme_allowed", "the scheme a WHATWG URL parser sees in the reference-decoded accepted value (if any) is one the scheme expression matched; never for the relative validator"),
     (P + "htmlCaseOk_needed_counterexample", "the HtmlCaseOk hypothesis cannot be dropped for the abstract Rules type (concrete witness, by decide)"),
     (P + "exRules_ok", "non-vacuity: a concrete rule set satisfying RulesOk (examples in Props.lean evaluate validate/filter on it)"),
 ]
@@ -508,6 +510,15 @@ def run_uri(c, hbin, model, cases):
             bad.append((k, "relative_uri validator accepted a value with a scheme"))
         if w[1] == "uri" and mm and not sv:
             bad.append((k, "uri validator accepted a scheme the scheme expression does not match"))
+        # byte alphabet (uri_accepted_bytes_safe) and the scheme a browser would see in the decoded value (uri_browser_scheme_allowed)
+        if not all(0x21 <= b <= 0x7E and b not in b'"<>\\[]^`{|}' for b in v):
+            bad.append((k, "URI validator accepted a text with a byte outside the URI alphabet (space, control, quote, <, >, non-ASCII …)"))
+        if re.search(rb"&(?!amp;|apos;)", v):
+            bad.append((k, "URI validator accepted a raw & that is neither &amp; nor &apos;"))
+        dec = v.replace(b"&amp;", b"&").replace(b"&apos;", b"'").strip(bytes(range(33))).replace(b"\t", b"").replace(b"\n", b"").replace(b"\r", b"")
+        bm = re.match(rb"[A-Za-z][A-Za-z0-9+.-]*:", dec)
+        if bm and not (mm and mm.group(0) == bm.group(0) and sv and w[1] != "reluri"):
+            bad.append((k, "a browser would see the scheme %r in an accepted value, which the scheme expression did not approve" % bm.group(0)))
     return diffs, crashed, accepted, bad
 
 
